@@ -63,6 +63,18 @@ class _Stepper(ast.NodeTransformer):
     def visit_With(self, node):
         node.items = [self.visit(i) for i in node.items]
         node.body = self._body(node.body)
+        if len(node.items) == 1 and node.items[0].optional_vars is None and "lock" in ast.unparse(node.items[0].context_expr).lower():
+            # `with self._some_lock:` -> simulated mutual exclusion: acquire blocks this (generator) thread while another one
+            # holds the lock; the body keeps its yields, so threads NOT using the lock still interleave with it
+            ctx = node.items[0].context_expr
+            acq = ast.Expr(value=ast.YieldFrom(value=ast.Call(func=ast.Name(id="_GENCALL_", ctx=ast.Load()),
+                                                              args=[ast.Name(id="_SIMLOCK_ACQUIRE_", ctx=ast.Load()), ctx], keywords=[])))
+            rel = ast.Expr(value=ast.Call(func=ast.Name(id="_SIMLOCK_RELEASE_", ctx=ast.Load()),
+                                          args=[ast.parse(ast.unparse(ctx), mode="eval").body], keywords=[]))
+            tr = ast.Try(body=node.body, handlers=[], orelse=[], finalbody=[rel])
+            for n in (acq, rel, tr):
+                ast.copy_location(n, node)
+            return [acq, tr]
         return node
 
     def visit_Try(self, node):
@@ -103,6 +115,23 @@ class _Stepper(ast.NodeTransformer):
         return ast.copy_location(yf, node)
 
 
+_HELD = set()
+
+
+def _simlock_acquire(lock):
+    while id(lock) in _HELD:
+        yield ("block", lambda: id(lock) not in _HELD)
+    _HELD.add(id(lock))
+
+
+def _simlock_release(lock):
+    _HELD.discard(id(lock))
+
+
+def reset_locks():
+    _HELD.clear()
+
+
 def stepify(func, wrap_names, owner=None, extra_globals=None):
     """Return a generator function with the behaviour of `func`, yielding before every statement."""
     src = textwrap.dedent(inspect.getsource(func))
@@ -121,6 +150,8 @@ def stepify(func, wrap_names, owner=None, extra_globals=None):
     ast.fix_missing_locations(mod)
     g = func.__globals__           # the live module namespace: later rebinding of module names (stubs) is seen
     g["_GENCALL_"] = gen_call
+    g["_SIMLOCK_ACQUIRE_"] = _simlock_acquire
+    g["_SIMLOCK_RELEASE_"] = _simlock_release
     if extra_globals:
         g.update(extra_globals)
     code = compile(mod, "<stepped %s>" % func.__qualname__, "exec")
